@@ -299,7 +299,10 @@ def r3_2(ctx: Ctx) -> RuleResult:
                 rr.ok(ser.loc(tr[0]), "canonical_string escapes quote, backslash and every control character")
             return rr
     if len(enc_chain) != 1 or len(dec_chain) != 1:
-        raise AnalysisError("R3.2: expected exactly one replace chain in canonical_string and in _decode_string_literal")
+        # neither idiom: the two functions are executed on covering samples instead (R3.11 is that check)
+        rr2 = name_round_trip(ctx, "R3.2")
+        rr2.title = rr.title + " (idiom not recognised: decided by abstract execution on covering samples)"
+        return rr2
     ecall, ebase, epairs = enc_chain[0]
     dcall, dbase, dpairs = dec_chain[0]
     # writer: json.dumps(...)[1:-1] then swap \" -> " and ' -> \'
@@ -371,6 +374,32 @@ def r3_4(ctx: Ctx, rule: str = "R3.4") -> RuleResult:
                 ok = True
             elif isinstance(v, ast.IfExp) and path_of(v.test) == "parts" and path_of(v.body) == "parts":
                 ok = True
+    if not ok:
+        # any other spelling: the constructor is executed abstractly with parts given; they must end up in
+        # self.parts as they are and the parser must not have been consulted
+        from sa.peval import UNKNOWN as _UNK
+
+        from .model import Model as _Model
+
+        parsed: list = []
+
+        def hook(e, a, env, ex):  # type: ignore[no-untyped-def]
+            if callee_name(e) == "_parse":
+                parsed.append(e)
+            return None
+
+        given = ("a~b", 3, "c/d")
+        try:
+            mdl = _Model(ctx, rule, on_call=hook)
+            mdl.whole_bodies = True
+            obj = mdl.new("jsonpath.pointer.JSONPointer", pointer="/x", parts=given, unicode_escape=False, uri_decode=False)
+            got = obj.fields.get("parts", _UNK)
+        except AnalysisError:
+            got = _UNK
+        if got == given and not parsed:
+            ok = True
+        elif got is _UNK or not isinstance(got, tuple):
+            raise AnalysisError(f"{rule}: what JSONPointer.__init__ stores in self.parts when parts are given cannot be determined")
     if ok:
         rr.ok(init.loc(), "JSONPointer.__init__: given parts are stored without parsing")
     else:
@@ -549,4 +578,94 @@ def r3_10(ctx: Ctx) -> RuleResult:
     return rr
 
 
-RULES = [r3_1, r3_2, r3_3, r3_4, r3_5, r3_6, r3_7, r3_8, r3_9, r3_10]
+#: member names that cover the escaping rules of a normalized path (RFC 9535 2.7): nothing to escape, each quote
+#: alone and together, a backslash alone, before a quote and doubled, every named control, other controls, DEL,
+#: non-ASCII in and beyond the BMP, a literal that looks like an escape, the empty name
+NAME_SAMPLES = ("a", "a b", "it's", 'say "hi"', "'", '"', "\\", "back\\slash", 'x\\"y', "x\\'y", "\\\\", "\\'", '\\"', "tab\there", "\b\f\n\r\t",
+                "\x00", "\x01\x1f", "\x0b", "\x7f", "\u00e9", "\U0001f600", "\\u0041", "\\n", "", "a'b\"c\\d\n", "$", "[0]", "/~01")
+
+
+def rfc9535_normal_name(name: str) -> str:
+    """The name selector of a normalized path for the member `name` (RFC 9535 2.7, `normal-single-quoted`)."""
+    named = {"\b": "\\b", "\t": "\\t", "\n": "\\n", "\f": "\\f", "\r": "\\r", "'": "\\'", "\\": "\\\\"}
+    out = []
+    for ch in name:
+        if ch in named:
+            out.append(named[ch])
+        elif ord(ch) < 0x20:  # noqa: PLR2004
+            out.append(f"\\u{ord(ch):04x}")
+        else:
+            out.append(ch)
+    return "'" + "".join(out) + "'"
+
+
+def name_round_trip(ctx: Ctx, rule: str) -> RuleResult:
+    """The writer of quoted names (`canonical_string`) and the reader (the lexer's string rule followed by
+    `Parser._decode_string_literal`) are executed abstractly on member names that cover the escaping rules: the
+    text written is the RFC 9535 normalized form, the lexer reads it back as one single-quoted string token and the
+    decoder returns the name that was written.  This is the behaviour itself on the covering samples, whatever the
+    spelling of the two functions (replace chains, translate tables, a regular expression with a callback)."""
+    from sa.peval import UNKNOWN as _UNK
+
+    from .model import RAISES as _RAISES
+    from .model import MObj as _MObj
+    from .model import Model as _Model
+
+    rr = RuleResult(rule, "quoted names: the canonical writer and the lexer/decoder are inverse on covering samples, and the text is RFC 9535's", floor=len(NAME_SAMPLES))
+    ser = ctx.repo.require_func("jsonpath.serialize.canonical_string")
+    dec = ctx.repo.require_func("Parser._decode_string_literal")
+    for name in NAME_SAMPLES:
+        mdl = _Model(ctx, rule)
+        mdl.whole_bodies = True
+        text = mdl.call_function(ser, [name])
+        if text is _RAISES:
+            rr.bad(ser, ser.node, f"canonical_string raises for the member name {name!r}", construct=f"canonical_string({name!r}) raises")
+            continue
+        if text is _UNK or not isinstance(text, str):
+            raise AnalysisError(f"{rule}: the text canonical_string writes for {name!r} cannot be determined")
+        want = rfc9535_normal_name(name)
+        if text != want:
+            rr.bad(ser, ser.node, f"canonical_string writes the member name {name!r} as {text} ; the normalized path of RFC 9535 2.7 spells it {want}",
+                   construct=f"canonical_string({name!r}) == {text}")
+            continue
+        toks = ctx.lexer.tokens_of(text)
+        if not (len(toks) == 1 and "SINGLE_QUOTE" in toks[0][1] and toks[0][2] == text[1:-1]):
+            rr.bad(ser, ser.node, f"the text {text} written for the member name {name!r} is lexed as {[(k, v) for _r, k, v in toks]}, not as one single-quoted "
+                   "string with that content: the normalized path does not parse back", construct=f"lexing of {text}")
+            continue
+        env_obj = _MObj(mdl, "jsonpath.env.JSONPathEnvironment", {"unicode_escape": True})
+        parser = _MObj(mdl, "jsonpath.parse.Parser", {"env": env_obj})
+        token = _MObj(mdl, "jsonpath.token.Token", {"kind": toks[0][1], "value": toks[0][2], "index": 0, "path": text})
+        back = mdl.call(parser, "_decode_string_literal", [token])
+        if back is _RAISES:
+            rr.bad(dec, dec.node, f"_decode_string_literal refuses the text {text} that canonical_string writes for the member name {name!r}",
+                   construct=f"decode of {text} raises")
+        elif back is _UNK or not isinstance(back, str):
+            raise AnalysisError(f"{rule}: what _decode_string_literal returns for {text} cannot be determined")
+        elif back != name:
+            rr.bad(dec, dec.node, f"the member name {name!r} is written as {text} and read back as {back!r}: the path of a match selects another member",
+                   construct=f"{name!r} -> {text} -> {back!r}")
+        else:
+            # ... and as a whole bracketed selection through the parser itself
+            from .model import parse_bracketed
+
+            sel = parse_bracketed(ctx, rule, "[" + text + "]")
+            psl = ctx.repo.require_func("Parser.parse_selector_list")
+            if sel is None:
+                raise AnalysisError(f"{rule}: the abstract execution of parse_selector_list on [{text}] cannot be followed")
+            if sel is _RAISES:
+                rr.bad(psl, psl.node, f"the selection [{text}] that the library writes for the member name {name!r} is refused by its own parser: "
+                       "the normalized path of a match cannot be used as a query", construct=f"parse of [{text}] raises")
+            elif not (len(sel) == 1 and sel[0][0] == "PropertySelector" and sel[0][1].get("name") == name):  # type: ignore[arg-type,index]
+                rr.bad(psl, psl.node, f"the selection [{text}] written for the member name {name!r} is parsed into {sel}: the normalized path selects "
+                       "something else", construct=f"parse of [{text}]")
+            else:
+                rr.ok(ser.loc(), f"{name!r} -> {text} -> {back!r} (token), name selector {name!r} (parser)")
+    return rr
+
+
+def r3_11(ctx: Ctx) -> RuleResult:
+    return name_round_trip(ctx, "R3.11")
+
+
+RULES = [r3_1, r3_2, r3_3, r3_4, r3_5, r3_6, r3_7, r3_8, r3_9, r3_10, r3_11]
